@@ -404,6 +404,46 @@ theorem C18_restart_same {V : Type} [PyVal V] (c : ECfg V) (f : TM.Node → Bool
     (∀ x, den (seeded c f) x = den c x) ∧ (∀ n ∈ (seeded c f).nodes, f n = false) :=
   VM.C18_restart_same c f hwf hf hfsome
 
+/-- C15 (executor objects): an executor is single-use.  Whatever its first call did — returned, failed
+    in a node, found no cache file — every later call of the same object is refused and changes neither
+    the instance nor any file: it never returns a result computed from a partially consumed graph. -/
+theorem C15_executor_single_use {V : Type} [PyVal V] (w : World V) (o : XObj) (a : List V) (rest : List (List V)) :
+    xRuns w o (a :: rest) =
+      ((xRun w o a).1, (xRun w o a).2.1, (xRun w o a).2.2 :: rest.map (fun _ => XOut.refused)) :=
+  VM.C15_executor_single_use w o a rest
+
+/-- C15 (executor objects): the call that is not refused runs the executor's complete selection from
+    the start results (the DAG's own, completed by the cache file if one is named). -/
+theorem C15_executor_run_is_complete {V : Type} [PyVal V] (w : World V) (s : XSpec) (args : List V)
+    (start : Results V) (hs : xStart w s = some start) :
+    (xRun w (XObj.fresh s) args).2.2 =
+      (if succeeded (xCfgOf w.inst s start args) then .ok (den (xCfgOf w.inst s start args)) else .failed) :=
+  VM.C15_executor_run_is_complete w s args start hs
+
+/-- C15 (executor objects): an executor run leaves the instance's non-setup state untouched. -/
+theorem C15_executor_no_state_but_setup {V : Type} [PyVal V] (w : World V) (o : XObj) (args : List V) (n : TM.Node)
+    (h : w.inst.dag.isSetup n = false) : (xRun w o args).1.inst.res n = w.inst.res n :=
+  VM.xRun_inst_nonsetup w o args n h
+
+/-- C18, end to end through an explicit file store: a successful run with `cache_in = p` (any selection,
+    any `cache_deps_of` targets `nonCache`), then a fresh executor of the same selection with
+    `from_cache = p`, called with the same arguments or with fewer (the omitted ones being in the file):
+    the restart succeeds, returns the same results on every node, and enters only nodes that are not in
+    the file — `cache_deps_of` targets that are not setup nodes. -/
+theorem C18_cache_roundtrip {V : Type} [PyVal V] (w : World V) (s1 s2 : XSpec) (p : Nat) (args args2 : List V)
+    (hfrom1 : s1.fromCache = none) (hin : s1.cacheIn = some p)
+    (hsel : s2.sel = s1.sel) (hfrom2 : s2.fromCache = some p)
+    (hsucc : succeeded (xCfgOf w.inst s1 w.inst.res args) = true)
+    (hwf : WF (xCfgOf w.inst s1 w.inst.res args))
+    (hargs : ∀ x, argOf w.inst.dag.params args2 x = argOf w.inst.dag.params args x ∨
+                  (argOf w.inst.dag.params args2 x = none ∧ s1.nonCache x = false)) :
+    let c1 := xCfgOf w.inst s1 w.inst.res args
+    let w1 := (xRun w (XObj.fresh s1) args).1
+    ∃ ρ2, (xRun w1 (XObj.fresh s2) args2).2.2 = .ok ρ2 ∧
+      (∀ x, ρ2 x = den c1 x) ∧
+      (∀ c2, c2 = seeded c1 (reused w.inst s1 c1) → ∀ n ∈ entered c2, s1.nonCache n = true ∧ w.inst.dag.isSetup n = false) :=
+  VM.C18_cache_roundtrip w s1 s2 p args args2 hfrom1 hin hsel hfrom2 hsucc hwf hargs
+
 /-- C12 (values) / C19: restricting a table to a dependency-closed set of nodes (a target with its
     ancestors; what composed outputs need) does not change the value of any kept node. -/
 theorem C12_restriction_keeps_values {V : Type} [PyVal V] (c : ECfg V) (S : TM.Node → Bool)
